@@ -468,7 +468,9 @@ def generate(rng, config):
     if config == "extended":
         case["extended"] = rng.choice(["stdout_epipe", "stdout_enospc",
                                        "outfile_enospc", "stdin_eio",
-                                       "stdin_closed", "stdin_closed"])
+                                       "stdin_closed", "stdin_closed",
+                                       "stdout_closed", "stderr_closed",
+                                       "stderr_closed"])
     # the locale of the process (what open() without an encoding uses)
     case["locale"] = rng.choice([None, None, None, "ascii", "latin-1",
                                  "cp1252"])
@@ -674,8 +676,8 @@ def _one(case, ctx, faults):
         kw["stdout_fail"] = OSError(errno.ENOSPC, "No space left on device")
     elif ext == "stdin_eio":
         kw["stdin_plan"] = {"eio_at": 0}
-    elif ext == "stdin_closed":
-        kw["stdin_closed"] = True
+    elif ext in ("stdin_closed", "stdout_closed", "stderr_closed"):
+        kw[ext] = True
     elif ext == "outfile_enospc":
         e = fs.entries.setdefault("out.cnf", {"kind": "file", "data": b"",
                                               "plan": {}})
@@ -696,11 +698,46 @@ def _one(case, ctx, faults):
         ctx.fault("device:" + ext)
         if prob:
             ctx.note("extended (%s): %s" % (ext, prob[0].split("/")[0]))
-        if ext == "stdin_closed" and o.exc is not None:
-            # nobody at the keyboard is not an excuse for a traceback
+        if ext in ("stdin_closed", "stdout_closed", "stderr_closed") and \
+                o.exc is not None:
+            # nobody at the keyboard is not an excuse for a traceback (a
+            # process started by cron or by a supervisor, 'cmd 2>&-', has
+            # None in place of the stream)
             raise Violation("C18/%s/%s" % (tool, prob[0]),
-                            "%s %s\nstandard input closed\n%r" %
-                            (tool, " ".join(map(repr, argv)), o.exc))
+                            "%s %s\n%s\n%r" %
+                            (tool, " ".join(map(repr, argv)), ext, o.exc))
+        if ext == "stderr_closed":
+            # the run is judged as ever, except that a report of an error
+            # cannot be seen (and must not land on the stream of the formula)
+            if prob and prob[0] != "error-without-message":
+                raise Violation("C18/%s/%s" % (tool, prob[0]),
+                                "%s %s\n%s\n%s\nstatus=%r stdout=%r" %
+                                (tool, " ".join(map(repr, argv)), ext,
+                                 prob[1], o.status, o.stdout[:300]))
+            if o.status != 0 and o.stdout.strip():
+                raise Violation("C18/%s/error-report-on-stdout" % tool,
+                                "%s %s\n%s\nstatus=%r stdout=%r" %
+                                (tool, " ".join(map(repr, argv)), ext,
+                                 o.status, o.stdout[:300]))
+            return
+        if ext == "stdout_closed":
+            _, target = requested_format(tool, argv)
+            if target in (None, "-") and klass == "formula" and \
+                    o.status == 0 and not prob:
+                # cannot be: the formula was to be written on a closed stream
+                raise Violation("C18/%s/success-on-a-closed-stream" % tool,
+                                "%s %s" % (tool, " ".join(map(repr, argv))))
+            if prob and not (target in (None, "-") and prob[0] in (
+                    "success-without-output", "help-printed-nothing")):
+                pass
+            if o.status == 0 and target in (None, "-") and klass != "help" \
+                    and not any(_is_help_flag(a) for a in argv):
+                raise Violation("C18/%s/success-on-a-closed-stream" % tool,
+                                "%s %s\nexit status 0 although standard "
+                                "output is closed; stderr=%r" %
+                                (tool, " ".join(map(repr, argv)),
+                                 o.stderr[:300]))
+            return
         _, target = requested_format(tool, argv)
         hit = (ext == "stdout_enospc" and target in (None, "-")) or \
             (ext == "outfile_enospc" and target == "out.cnf")
